@@ -42,6 +42,8 @@ theorem DataAt.take {mem : List Region} {p : Nat} {d : List Nat} (h : DataAt mem
 def tagN (h y tmask a c : Nat) : Nat :=
   rb128 (gmulR h (y ^^^ rb128 (unlanes 8 (be64N (8 * a) ++ be64N (8 * c))))) ^^^ tmask
 
+def sPostKeepV : List Nat := [10, 11, 12, 14, 15, 16, 17, 18, 19, 22, 23, 24, 25, 26, 29, 30, 31]
+
 def sPostKeepG (dst : Nat) : List Nat := (List.range 16).filter (fun n => !([7, 9, 12, 1, dst, 6, 14].contains n))
 
 set_option maxRecDepth 100000 in
@@ -59,7 +61,7 @@ theorem sPost_reach (r : Routine) (k dst p8 p4 p2 p1 pe : Nat) (hdst : dst = 13 
     (hy : vreg s 21 = y) (hylt : y < 2 ^ 128) (h15 : vreg s 15 = tmask) (htm : tmask < 2 ^ 128) :
     ∃ s' N tc', N ≤ 120 ∧ Reach r k s (k + 80) s' N ∧
       s'.mem = M2 (spliceAt dc doff ((lanes 8 16 (tagN h y tmask a c)).take ts)) tc' ∧ tc'.length = 32 ∧
-      KeepsM (sPostKeepG dst) [] [] s s' := by
+      KeepsM (sPostKeepG dst) sPostKeepV [] s s' := by
   rw [sPost_eq] at hs
   have sA := hs.left
   have sB : Slice r (k + 12) (rbCode 16 20 0 1) := hs.right.left
@@ -176,16 +178,19 @@ theorem sPost_reach (r : Routine) (k dst p8 p4 p2 p1 pe : Nat) (hdst : dst = 13 
   refine ⟨s9, 12 + 6 + 1 + 19 + 1 + 6 + 2 + N9, tc1, by omega,
     (((((((r1.trans r2).trans r3).trans r4).trans r5).trans r6).trans r7).trans (r9.cast (by omega) rfl)).cast rfl rfl, ?_, htc1, ?_⟩
   · rw [m9, List.drop_zero]
-  · have e78 : KeepsM (sPostKeepG dst) [] [] s6 s8 :=
-      ⟨rfl, by simp [s8, s7], rfl, fun _ _ => rfl, fun _ h => (by cases h), fun _ h => (by cases h), rfl, rfl⟩
+  · have e78 : KeepsM (sPostKeepG dst) sPostKeepV [] s6 s8 :=
+      ⟨rfl, by simp [s8, s7], rfl, fun _ _ => rfl,
+        fun n hn => vreg_setVreg_ne s6 21 T n (by intro e; subst e; revert hn; decide), fun _ h => (by cases h), rfl, rfl⟩
     have hsub : ∀ n, n ∈ sPostKeepG dst → n ≠ 7 ∧ n ≠ 9 ∧ n ≠ 12 ∧ n ≠ 1 ∧ n ≠ dst ∧ n ≠ 6 ∧ n ≠ 14 ∧ n < 16 := by
       intro n hn
       simp [sPostKeepG] at hn
       exact ⟨hn.2.1, hn.2.2.1, hn.2.2.2.1, hn.2.2.2.2.1, hn.2.2.2.2.2.1, hn.2.2.2.2.2.2.1, hn.2.2.2.2.2.2.2, hn.1⟩
-    have mk : ∀ {G V K : List Nat} {x x' : State}, Keeps G V K x x' → (∀ n, n ∈ sPostKeepG dst → n ∈ G) → KeepsM (sPostKeepG dst) [] [] x x' :=
-      fun kk hg => kk.toM.mono hg (fun _ h => by cases h) (fun _ h => by cases h)
-    refine (((((((mk k1 ?_).trans (mk k2 ?_)).trans (mk k3 ?_)).trans (mk k4 ?_)).trans (mk k5 ?_)).trans (mk k6 ?_)).trans e78).trans
-      ((k9.toM [] []).mono ?_ (fun _ h => h) (fun _ h => h))
+    have mk : ∀ {G V K : List Nat} {x x' : State}, Keeps G V K x x' → (∀ n, n ∈ sPostKeepG dst → n ∈ G) → (∀ n, n ∈ sPostKeepV → n ∈ V) →
+        KeepsM (sPostKeepG dst) sPostKeepV [] x x' :=
+      fun kk hg hv => kk.toM.mono hg hv (fun _ h => by cases h)
+    refine (((((((mk k1 ?_ (by decide)).trans (mk k2 ?_ (by decide))).trans (mk k3 ?_ (by decide))).trans (mk k4 ?_ (by decide))).trans
+      (mk k5 ?_ (by decide))).trans (mk k6 ?_ (by decide))).trans e78).trans
+      ((k9.toM sPostKeepV []).mono ?_ (fun _ h => h) (fun _ h => h))
     all_goals
       intro n hn
       obtain ⟨a1, a2, a3, a4, a5, a6, a7, a8⟩ := hsub n hn
